@@ -27,13 +27,13 @@ pub fn def() -> PropDef {
     PropDef {
         id: "C06",
         level: "fault_enumeration",
-        rule: "every history of <= d operations over {insert a/ab/a\\xff, delete prefix a/'', remote older, remote newer, flush, snapshot-read, remove document, re-create document} on a file-backed store; a baseline run numbers every store access point (hook at Store::tables/modify); then every placement of <= k 'transaction looks older than the commit delay' answers among the points where a write transaction is open, and in every such run a crash image (copy of the database file, live store untouched) at every access point and after every operation; each distinct image is reopened and must show the reference state after j complete operations with last-acknowledged-flush <= j <= operations-started, with records, by-key index, heads, point lookups, namespaces and authors mutually consistent; non-trivial = distinct (image content, window) pairs whose window spans an unacknowledged or in-progress operation",
+        rule: "every history of <= d operations over {insert a/ab/a\\xff, delete prefix a/'', remote older, remote newer, flush, snapshot-read, remove document, re-create document} (family A) and over {register peer 1/2, set policy 1/2, insert a, remove, re-create, flush} (family B) on a file-backed store; a baseline run numbers every store access point (hook at Store::tables/modify); then every placement of <= k 'transaction looks older than the commit delay' answers among the points where a write transaction is open, and in every such run a crash image (copy of the database file, live store untouched) at every access point and after every operation; each distinct image is reopened and must show the reference state after j complete operations with last-acknowledged-flush <= j <= operations-started, with records, by-key index, heads, point lookups, namespaces and authors mutually consistent; non-trivial = distinct (image content, window) pairs whose window spans an unacknowledged or in-progress operation",
         assumptions: &[
             "crash = process kill: the image is what the OS holds for the file at that instant; power loss, torn sectors and crashes inside redb's own commit are redb's contract",
             "an extra age-based commit caused by real elapsed time can only move the recovered state forward inside the accepted window, never raise an alarm",
         ],
         bound: |t| match t {
-            Tier::Quick => json!({"histories": "depth <= 4 over 11 operations with <= 1 forced-old answer; depth <= 3 with <= 2", "forced_old_answers": "<= 2"}),
+            Tier::Quick => json!({"histories": "depth <= 4 over 11 operations with <= 1 forced-old answer; depth <= 3 with <= 2", "family_B": "depth <= 3 with <= 2", "forced_old_answers": "<= 2"}),
             Tier::Thorough => json!({"histories": "depth <= 5 with <= 1 forced-old answer; depth <= 4 with <= 2", "forced_old_answers": "<= 2"}),
         },
         run,
@@ -57,6 +57,56 @@ pub enum Op {
     RemoveDoc,
     /// import the write capability again
     Recreate,
+    /// register useful peer 1 / 2
+    PeerA,
+    PeerB,
+    /// set download policy 1 / 2
+    Policy1,
+    Policy2,
+}
+
+/// second alphabet: the per-document settings next to entries, removal and re-creation
+const OPS_B: [Op; 8] = [
+    Op::PeerA,
+    Op::PeerB,
+    Op::Policy1,
+    Op::Policy2,
+    Op::InsA,
+    Op::RemoveDoc,
+    Op::Recreate,
+    Op::Flush,
+];
+
+fn the_policy(i: u8) -> iroh_docs::store::DownloadPolicy {
+    use iroh_docs::store::{DownloadPolicy, FilterKind};
+    if i == 1 {
+        DownloadPolicy::NothingExcept(vec![FilterKind::Prefix("a".into())])
+    } else {
+        DownloadPolicy::EverythingExcept(vec![FilterKind::Exact("b".into())])
+    }
+}
+
+/// Reference state after a number of complete operations.
+#[derive(Debug, Clone, PartialEq, Eq, Default)]
+struct St {
+    exists: bool,
+    entries: Vec<SignedEntry>,
+    /// most recent first
+    peers: Vec<u8>,
+    /// 0 = default
+    policy: u8,
+}
+
+impl St {
+    fn show(&self) -> String {
+        format!(
+            "listed={} {} peers={:?} policy={}",
+            self.exists,
+            show_entries(&self.entries),
+            self.peers,
+            self.policy
+        )
+    }
 }
 
 const OPS: [Op; 11] = [
@@ -133,8 +183,8 @@ struct RunResult {
     points: u64,
     write_open: Vec<bool>,
     images: Vec<([u8; 32], usize, usize, u64)>,
-    /// model state after j complete operations: (document exists, entries)
-    states: Vec<(bool, ModelReplica)>,
+    /// model state after j complete operations
+    states: Vec<St>,
     final_dump_ok: Option<String>,
 }
 
@@ -177,7 +227,16 @@ fn run_history(hist: &[Op], forced: &BTreeSet<u64>, dir: &Path) -> RunResult {
     }
     let mut model = ModelReplica::default();
     let mut exists = true;
-    let mut states = vec![(exists, model.clone())];
+    let mut peers: Vec<u8> = vec![];
+    let mut policy = 0u8;
+    iroh_docs::verif::set_clock_nanos(Some(7_000_000));
+    let snap = |exists: bool, model: &ModelReplica, peers: &Vec<u8>, policy: u8| St {
+        exists,
+        entries: model.dump(),
+        peers: peers.clone(),
+        policy,
+    };
+    let mut states = vec![snap(exists, &model, &peers, policy)];
     for (i, op) in hist.iter().enumerate() {
         shared.lock().unwrap().ops_started = i + 1;
         let ts = T0 + 10 + i as u64;
@@ -209,6 +268,23 @@ fn run_history(hist: &[Op], forced: &BTreeSet<u64>, dir: &Path) -> RunResult {
                 let _ = sut.store.remove_replica(&ns);
                 exists = false;
                 model = ModelReplica::default();
+                peers.clear();
+                policy = 0;
+            }
+            Op::PeerA | Op::PeerB => {
+                let p = if matches!(op, Op::PeerA) { 1u8 } else { 2u8 };
+                let _ = sut.store.register_useful_peer(ns, [p; 32]);
+                if exists {
+                    peers.retain(|x| *x != p);
+                    peers.insert(0, p);
+                }
+            }
+            Op::Policy1 | Op::Policy2 => {
+                let p = if matches!(op, Op::Policy1) { 1u8 } else { 2u8 };
+                let _ = sut.store.set_download_policy(&ns, the_policy(p));
+                if exists {
+                    policy = p;
+                }
             }
             Op::Recreate => {
                 let _ = sut
@@ -217,7 +293,7 @@ fn run_history(hist: &[Op], forced: &BTreeSet<u64>, dir: &Path) -> RunResult {
                 exists = true;
             }
         }
-        states.push((exists, model.clone()));
+        states.push(snap(exists, &model, &peers, policy));
         let mut s = shared.lock().unwrap();
         s.ops_done = i + 1;
         if matches!(op, Op::Flush | Op::SnapshotRead) {
@@ -228,6 +304,7 @@ fn run_history(hist: &[Op], forced: &BTreeSet<u64>, dir: &Path) -> RunResult {
     // stop observing, then check the live store's final state (sanity of the model)
     shared.lock().unwrap().enabled = false;
     iroh_docs::verif::set_store_access_callback(None);
+    iroh_docs::verif::set_clock_nanos(None);
     let live = sut.dump(ns);
     let live_exists = sut
         .store
@@ -259,6 +336,8 @@ struct Recovered {
     open_error: Option<String>,
     exists: bool,
     dump: Vec<SignedEntry>,
+    peers: Vec<u8>,
+    policy: u8,
     inconsistencies: Vec<String>,
 }
 
@@ -272,6 +351,8 @@ fn recover(image: &Path, dir: &Path) -> Recovered {
                 open_error: Some(format!("{e:#}")),
                 exists: false,
                 dump: vec![],
+                peers: vec![],
+                policy: 0,
                 inconsistencies: vec![],
             }
         }
@@ -331,12 +412,34 @@ fn recover(image: &Path, dir: &Path) -> Recovered {
     if authors != 1 {
         inc.push(format!("authors listed: {authors}"));
     }
+    let peers: Vec<u8> = sut
+        .store
+        .get_sync_peers(&ns)
+        .expect("peers")
+        .map(|i| i.map(|p| p[0]).collect())
+        .unwrap_or_default();
+    let policy = match sut.store.get_download_policy(&ns) {
+        Ok(p) if p == the_policy(1) => 1,
+        Ok(p) if p == the_policy(2) => 2,
+        Ok(p) if p == iroh_docs::store::DownloadPolicy::default() => 0,
+        other => {
+            inc.push(format!("unreadable or unknown download policy: {other:?}"));
+            9
+        }
+    };
+    if !exists && (!peers.is_empty() || policy != 0) {
+        inc.push(format!(
+            "the document is not listed but peers {peers:?} / policy {policy} of it are readable"
+        ));
+    }
     drop(sut);
     let _ = std::fs::remove_file(&copy);
     Recovered {
         open_error: None,
         exists,
         dump,
+        peers,
+        policy,
         inconsistencies: inc,
     }
 }
@@ -379,7 +482,10 @@ fn evaluate(
             ));
             continue;
         }
-        let same = |j: usize| rr.states[j].0 == rec.exists && rr.states[j].1.dump() == rec.dump;
+        let same = |j: usize| {
+            let st = &rr.states[j];
+            st.exists == rec.exists && st.entries == rec.dump && st.peers == rec.peers && st.policy == rec.policy
+        };
         let ok = (*lo..=*hi).any(same);
         if !ok {
             // which operation was in progress
@@ -389,10 +495,12 @@ fn evaluate(
                 "image_is_operation_boundary_state",
                 json!({"forced": forced.len(), "operation_in_progress": format!("{in_progress:?}"), "older_than_last_flush": older_than_flush, "matches_no_boundary_state": !(0..rr.states.len()).any(same)}),
                 format!(
-                    "image {at} (window {lo}..={hi}) shows document listed={} with {} which is none of the states after {lo}..={hi} operations: {:?}",
+                    "image {at} (window {lo}..={hi}) shows listed={} {} peers={:?} policy={} which is none of the states after {lo}..={hi} operations: {:?}",
                     rec.exists,
                     show_entries(&rec.dump),
-                    (*lo..=*hi).map(|j| format!("listed={} {}", rr.states[j].0, show_entries(&rr.states[j].1.dump()))).collect::<Vec<_>>()
+                    rec.peers,
+                    rec.policy,
+                    (*lo..=*hi).map(|j| rr.states[j].show()).collect::<Vec<_>>()
                 ),
             ));
         }
@@ -479,6 +587,18 @@ fn run(ctx: &Ctx, report: &mut Report) {
                 check_history(&hist, k, report, ordinal);
             });
         }
+    }
+    // family B: per-document settings, removal and re-creation
+    let (depth_b, k_b) = if ctx.quick() { (3, 2) } else { (4, 2) };
+    for d in 1..=depth_b {
+        for_each_sequence(OPS_B.len(), d, |seq| {
+            ordinal += 1;
+            if !ctx.mine(ordinal) {
+                return;
+            }
+            let hist: Vec<Op> = seq.iter().map(|&i| OPS_B[i]).collect();
+            check_history(&hist, k_b, report, ordinal);
+        });
     }
     report.fact("deviation_bound_completed", json!(2));
 }
